@@ -1066,6 +1066,47 @@ func c17Laws(r *Run, c *c17Case, obs []c17StepObs) {
 				viol("frame", "frame-labels-entry:add label", fmt.Sprintf("step %d %v: %s", i, o.cli(), bad))
 			}
 		}
+		// add / remove patch compare with Patch.Equals, which includes the options: the commands build a patch
+		// WITHOUT options, so (a) after a successful `add patch` an option-less entry with that path/patch/
+		// target exists, (b) `remove patch` never deletes an entry that has options
+		if (o.Kind == "add patch" || o.Kind == "remove patch") && obs[i].cls == ClsOk {
+			same := func(q types.Patch) bool {
+				var t [7]string
+				if q.Target != nil {
+					t = [7]string{q.Target.Group, q.Target.Version, q.Target.Kind, q.Target.Name, q.Target.Namespace, q.Target.AnnotationSelector, q.Target.LabelSelector}
+				}
+				// (the text of an inline patch may have grown by comment-looking lines: the absorption findings,
+				// reported by the frame law with their own classes)
+				samePatch := q.Patch == o.Patch || (o.Patch != "" && c17AbsorbedShape(c17JsonTok(o.Patch), c17JsonTok(q.Patch)))
+				return q.Path == o.Path && samePatch && t == o.Target &&
+					!(q.Target != nil && *q.Target == (types.Selector{}))
+			}
+			if o.Kind == "add patch" {
+				found := false
+				for _, q := range kNew.Patches {
+					if same(q) && len(q.Options) == 0 {
+						found = true
+					}
+				}
+				if !found {
+					viol("add_adds", "add-patch-not-added", fmt.Sprintf("step %d %v: no option-less entry for it in %s", i, o.cli(), c17FieldJSON(kNew, c17MustField("Patches"))))
+				}
+			} else {
+				withOpts := func(k *types.Kustomization) int {
+					n := 0
+					for _, q := range k.Patches {
+						if len(q.Options) > 0 {
+							n++
+						}
+					}
+					return n
+				}
+				if withOpts(kNew) < withOpts(kPrev) {
+					viol("remove_removes_equal_only", "remove-patch-deletes-entry-with-options", fmt.Sprintf("step %d %v: %s -> %s", i, o.cli(),
+						c17FieldJSON(kPrev, c17MustField("Patches")), c17FieldJSON(kNew, c17MustField("Patches"))))
+				}
+			}
+		}
 		// an add of path-like items never introduces a duplicate entry (the lists behave like sets:
 		// every add command tests membership before appending) — independent of the model
 		if list := map[string]string{"add resource": "Resources", "add base": "Resources", "add component": "Components",
@@ -1246,8 +1287,12 @@ func c17GenPatch(g *Rng, adversarial bool) types.Patch {
 	if g.Chance(55) {
 		p.Target = c17GenSelector(g)
 	}
-	if g.Chance(8) {
-		p.Options = map[string]bool{"allowNameChange": g.Bool()}
+	if g.Chance(22) {
+		// entries WITH options: Patch.Equals must tell them from the option-less patch the commands build
+		p.Options = map[string]bool{g.Pick([]string{"allowNameChange", "allowKindChange"}): g.Bool()}
+		if g.Chance(30) {
+			p.Options["allowKindChange"] = true
+		}
 	} else if g.Chance(4) {
 		p.Options = map[string]bool{}
 	}
